@@ -196,6 +196,7 @@ def run(tier, seed, replay):
     try:
         cases = []
         if replay:
+            FLOORS[tier] = (1, 1)   # a replay is one case; the tier floors do not apply
             rp = replay.get("replay", replay)
             c = rp["case"]
             old = c["crate"]
